@@ -58,7 +58,6 @@ static uint64_t pick_value(Rng &r, unsigned width, unsigned limit_bits) {
 }
 
 static std::string gen(const std::string &prop, uint64_t base, uint64_t idx, bool thorough) {
-    (void)thorough;
     uint64_t seed = sim::run_seed(base, ("rec/" + prop).c_str(), idx);
     Rng r(seed);
     std::string o;
@@ -97,7 +96,7 @@ static std::string gen(const std::string &prop, uint64_t base, uint64_t idx, boo
             }
         }
     }
-    int nops = (int)(r.chance(0.2) ? r.range(3, 20) : r.range(20, 300));
+    int nops = (int)(r.chance(0.2) ? r.range(3, 20) : r.range(20, thorough ? 1000 : 300));
     int cur = (int)r.below(bufs.size());
     std::map<int, std::vector<std::string>> written;  // buffer -> fields written so far
     for (int i = 0; i < nops; i++) {
